@@ -11,6 +11,7 @@ import (
 
 	apicommon "github.com/enfein/mieru/v3/apis/common"
 	"github.com/enfein/mieru/v3/apis/model"
+	"github.com/enfein/mieru/v3/apis/server"
 
 	"verifsim/spec"
 )
@@ -43,7 +44,7 @@ type sessRT struct {
 	sconn                      net.Conn
 	dirs                       [2]*dirRT // 0: c2s, 1: s2c
 	sready                     chan struct{}
-	acceptedAt                 time.Duration // when the server application got the session from Accept
+	acceptedAt                 time.Duration    // when the server application got the session from Accept
 	readDone                   [2]chan struct{} // closed when the reader of that direction has read everything expected
 	wrDone                     [2]chan struct{} // closed when the writer of that direction has returned from its last Write
 	closing                    chan struct{}    // closed when the harness starts closing the session
@@ -229,6 +230,11 @@ func (rt *sessRT) writer(conn net.Conn, dr *dirRT, sc *spec.Script, isClient boo
 		time.Sleep(time.Duration(gap) * time.Microsecond)
 		buf := dr.prf.Bytes(off, size)
 		n, err := conn.Write(buf)
+		// the application reuses its buffer as soon as Write has returned (io.Writer: "Write
+		// must not retain p"), as every relay loop does
+		for k := range buf {
+			buf[k] ^= 0xA5
+		}
 		dr.mu.Lock()
 		if n > 0 || err == nil {
 			dr.writtenMax += int64(n)
@@ -490,7 +496,22 @@ func (w *World) serverAcceptLoop() {
 
 func (w *World) acceptLoop1() {
 	for {
-		conn, req, err := w.srv.Accept()
+		var conn net.Conn
+		var req *model.Request
+		var err error
+		if w.Spec.Server.RawMux {
+			mux := server.VerifMux(w.srv)
+			if mux == nil {
+				return
+			}
+			conn, err = mux.Accept()
+			if err == nil {
+				w.onAcceptRaw(conn)
+				continue
+			}
+		} else {
+			conn, req, err = w.srv.Accept()
+		}
 		if err != nil {
 			if !w.srv.IsRunning() {
 				return
@@ -557,6 +578,28 @@ func (w *World) onAccept(conn net.Conn, req *model.Request) {
 		}
 		rt.runServerSide(conn)
 	}()
+}
+
+// onAcceptRaw: raw mux mode. The connection is matched to the harness session by the
+// protocol session id the client's multiplexer drew.
+func (w *World) onAcceptRaw(conn net.Conn) {
+	id := rawSessionID(conn)
+	w.mu.Lock()
+	key := w.rawKeys[id]
+	rt := w.sessions[key]
+	w.mu.Unlock()
+	if key == "" || rt == nil {
+		w.violate(w.Spec.Property, "accept-of-unknown-session", "Mux.Accept returned session %s from %v which no client dialled", id, conn.RemoteAddr())
+		conn.Close()
+		return
+	}
+	if rt.sconn != nil {
+		w.violate(rt.streamProp(), "session-accepted-twice", "%s was returned by Accept twice", key)
+		conn.Close()
+		return
+	}
+	w.wg.Add(1)
+	go rt.runServerSide(conn)
 }
 
 func (w *World) outcomes() []spec.SessionOutcome {
